@@ -19,6 +19,12 @@ LEVEL_TEXT = {
             "text": "bounded symbolic execution of the real record_store.rs + cmd.rs arms over every history of <=3 operations on <=2 keys and every completion order of the spawned tasks (FIFO per key); cache timestamps are symbolic; obligations (reads return only accepted bytes; settled state equals last accepted write / removal) are discharged per path"},
     "C02": {"engine": "symrt (engine D)", "technique": D_TECH, "note": D_NOTE,
             "text": "bounded symbolic execution of the real record_store.rs: history, crash with any subset of background tasks run and one write torn at every byte prefix, restart through the real with_config; real AES-GCM-SIV runs on each path; index/distance consistency after restart is decided by the solver over 256-bit symbolic hashes"},
+    "C03": {"engine": "symrt (engine D)", "technique": D_TECH, "note": D_NOTE,
+            "text": "bounded symbolic execution of the real validate_and_store_record / payment_for_us_exists_and_is_still_valid / ProofOfPayment::verify_for / PaymentQuote::{check_is_signed_by_claimed_peer, has_expired}: every combination of the payment conditions on 1..2 quotes, symbolic quote timestamps against a symbolic clock; 'stored only if all seven conditions hold' and 'otherwise rejected, nothing stored' are discharged per path"},
+    "C04": {"engine": "symrt (engine D)", "technique": D_TECH, "note": D_NOTE,
+            "text": "the three acceptance paths of put_validation.rs executed for every record kind under the content-derived key and under a foreign key: a foreign key is rejected and the store is unchanged"},
+    "C07": {"engine": "symrt (engine D)", "technique": D_TECH, "note": D_NOTE,
+            "text": "scratchpad updates with symbolic 64-bit counters (stored vs delivered) on the update and replication paths decided by the solver; transaction/register unions in both orders; two concurrent deliveries explored under every interleaving of their query round trips and deferred puts"},
     "C08": {"engine": "symrt (engine D)", "technique": D_TECH, "note": D_NOTE,
             "text": "bounded symbolic execution of the real replication_fetcher.rs: each fetcher entry point from arbitrary small states with symbolic 256-bit distances, symbolic deadlines and clock; obligations per call (held/in-range/farthest filters, no duplicate fetch, parallel limit, closest first, expiry reporting, completion) and a 2-round bounded progress obligation"},
     "C09": {"engine": "symrt (engine D)", "technique": D_TECH, "note": D_NOTE,
